@@ -109,6 +109,22 @@ mod private {
         } else {
             vec![]
         };
+        // the same letters with other character classes, right after a call with the same second word: kept
+        // rows / memoised state keyed by characters only would show here
+        let mut reclass_err: Option<String> = None;
+        if FREE_CLASSES.with(|f| f.get()).is_some() && !c1.is_empty() {
+            let k1b = classes_for(c1, 3);
+            let t1b = word_text(c1, &k1b);
+            let got = with_dl!(|d: &DamerauLevenshtein| d.distance(&t1b.view(0), &t2.view(0)));
+            let want = DamerauLevenshtein::new().distance(&t1b.view(0), &t2.view(0));
+            cx.eval();
+            cx.count("re-classed repeat calls");
+            if got != want {
+                reclass_err = Some(format!("same letters, classes {:?} instead of {:?}: {} on the used instance, {} on a fresh one", k1b, k1, got, want));
+            }
+            // restore the matrix state the following observations expect
+            let _ = with_dl!(|d: &DamerauLevenshtein| d.distance(&t1.view(0), &t2.view(0)));
+        }
         let d21 = with_dl!(|d: &DamerauLevenshtein| d.distance(&t2.view(0), &t1.view(0)));
         let fresh = DamerauLevenshtein::new().distance(&t1.view(0), &t2.view(0));
         cx.eval();
@@ -132,6 +148,9 @@ mod private {
         }
         if d12 != fresh {
             errs.push("depends-on-history".into());
+        }
+        if let Some(e) = reclass_err {
+            errs.push(format!("depends-on-history({})", e));
         }
         let a1 = word_text(c1, &vec![CharClass::Any; c1.len()]);
         let a2 = word_text(c2, &vec![CharClass::Any; c2.len()]);
@@ -402,6 +421,71 @@ impl Prims {
         }
     }
 
+    /// One index answering more than 2^16 (sometimes 2^17) calls: a few records are touched by the first
+    /// calls only, then tens of thousands of calls touch other records, then the first queries come back.
+    /// Per-index state that only wraps or ages after many calls (epochs, stamps, narrow counters) shows at
+    /// the calls around each power of two; all of those and every 13th other call are judged.
+    fn index_session_case(&self, cx: &mut Cx, lang: &'static str) {
+        let rare = ["detector", "ёлка", "obcdefgh", "zzz"];
+        let freq = ["metal", "mailbox", "yellow", "shirt", "omega", "me", "wi"];
+        let n = cx.rng.range(2, 30);
+        let recs: Vec<Rec> = (0..n)
+            .map(|i| {
+                let t = match cx.rng.below(4) {
+                    0 => cx.rng.pick(&rare).to_string(),
+                    1 => format!("{} {}", cx.rng.pick(&rare), cx.rng.pick(&freq)),
+                    2 => cx.rng.pick(&freq).to_string(),
+                    _ => format!("{} {}", cx.rng.pick(&freq), cx.rng.pick(&freq)),
+                };
+                (i, t, i)
+            })
+            .collect();
+        let st = St::build_sentinel(lang, &recs, 10);
+        let rgrams: Vec<BTreeSet<oracle::Gram>> = recs.iter().map(|r| oracle::grams_of(&st.tok_record(&r.1))).collect();
+        let desc = json!(recs);
+        let lead = cx.rng.range(1, 6);
+        let two = cx.idx % 4 == 1;
+        let total: usize = if two { 131_100 + lead } else { 65_560 + lead };
+        let size_for = |k: usize| [1usize, 5, 1, 2, 0, 1][k % 6];
+        let mut judged = 0u64;
+        for k in 0..total {
+            let nth = k + 1;
+            let near_power = (8..=17).any(|b| {
+                let p = 1usize << b;
+                nth + 3 >= p && nth <= p + lead + 8
+            });
+            let in_lead = k < lead || k + lead + 2 >= total;
+            let q: String = if in_lead {
+                let w = rare[(k + cx.idx as usize) % rare.len()];
+                if k % 2 == 0 { w.to_string() } else { w.chars().skip(1).collect() }
+            } else {
+                let w = freq[(k * 5 + k / 31) % freq.len()];
+                if k % 3 == 0 { w.chars().take(2).collect() } else { w.to_string() }
+            };
+            let size = if in_lead { [5usize, 1][k % 2] } else { size_for(k) };
+            if in_lead || near_power || nth % 13 == 0 {
+                let before = cx.viols.len();
+                self.index_check(cx, lang, &st, &recs.len(), &rgrams, &q, size, &desc);
+                judged += 1;
+                if cx.viols.len() != before {
+                    if let Some(v) = cx.viols.last_mut() {
+                        v.detail["history"] = json!(format!("call #{} on this index: {} leading calls with queries from {:?}, then calls with queries from {:?}, the leading queries again at the end", nth, lead, rare, freq));
+                    }
+                    return;
+                }
+            } else {
+                let tq = st.tok_query(&q);
+                let _ = st.store.index.borrow_mut().prepare(&tq.to_ref(), size);
+            }
+        }
+        cx.count_n("session calls on one index", total as u64);
+        cx.count_max("most calls on one index max ", total as u64);
+        cx.count_n("session calls judged", judged);
+        if two {
+            cx.count("sessions past 2^17 calls");
+        }
+    }
+
     /// Long texts: queries with several hundred distinct grams against records sharing most of them.
     fn index_long_case(&self, cx: &mut Cx, lang: &'static str) {
         let alpha = gen::lower_alphabet(lang);
@@ -609,15 +693,15 @@ impl Prop for Prims {
         match self.0 {
             Which::Distance => vec![Stream::new("exhaustive", 341, 1555), Stream::new("random", 24000, 720000).miri(8)],
             Which::Jaccard => vec![Stream::new("exhaustive", 341, 1365), Stream::new("random", 32000, 1600000).miri(8)],
-            Which::Index => vec![Stream::new("stores", 6400, 320000), Stream::new("corpus", 96, 2880), Stream::new("long", 320, 16000)],
+            Which::Index => vec![Stream::new("stores", 6400, 320000), Stream::new("corpus", 96, 2880), Stream::new("long", 320, 16000), Stream::new("session", 16, 160)],
             Which::Unchecked => vec![Stream::new("direct", 24000, 1200000).asan(24000).miri(12), Stream::new("store", 6400, 320000).asan(6400).miri(6)],
         }
     }
     fn floors(&self) -> Vec<(&'static str, u64, u64)> {
         match self.0 {
-            Which::Distance => vec![("exhaustive pairs", 100000, 2000000), ("prefix cells compared", 1000000, 20000000), ("pairs where a discount lowered the distance", 10000, 100000), ("random pairs beyond capacity 20", 500, 5000), ("long pairs with sampled prefix cells", 200, 2000), ("random cases with per-position character classes", 2000, 20000), ("hook matrix growths", 3, 3), ("hook matrix max size", 50, 50)],
+            Which::Distance => vec![("exhaustive pairs", 100000, 2000000), ("prefix cells compared", 1000000, 20000000), ("pairs where a discount lowered the distance", 10000, 100000), ("random pairs beyond capacity 20", 500, 5000), ("long pairs with sampled prefix cells", 200, 2000), ("random cases with per-position character classes", 2000, 20000), ("re-classed repeat calls", 10000, 100000), ("hook matrix growths", 3, 3), ("hook matrix max size", 50, 50)],
             Which::Jaccard => vec![("exhaustive pairs", 100000, 1500000), ("pairs with partial overlap", 20000, 200000), ("pairs beyond the initial capacity of 20", 500, 5000), ("random cases over a wide alphabet", 1000, 10000), ("hook jaccard accesses", 100000, 1000000)],
-            Which::Index => vec![("prepare calls", 5000, 50000), ("capped calls", 500, 5000), ("calls with ties at the cut", 100, 1000), ("size 0", 300, 3000), ("corpus prepare calls", 200, 2000), ("stores of 1023-5000 records", 50, 500), ("queries with more than 255 distinct grams", 300, 15000), ("calls at the boundary between 'all listed' and 'capped'", 300, 15000)],
+            Which::Index => vec![("prepare calls", 5000, 50000), ("capped calls", 500, 5000), ("calls with ties at the cut", 100, 1000), ("size 0", 300, 3000), ("corpus prepare calls", 200, 2000), ("stores of 1023-5000 records", 50, 500), ("queries with more than 255 distinct grams", 300, 15000), ("calls at the boundary between 'all listed' and 'capped'", 300, 15000), ("session calls on one index", 1000000, 10000000), ("most calls on one index max ", 131000, 131000), ("sessions past 2^17 calls", 2, 20)],
             Which::Unchecked => vec![("direct distance/similarity calls", 20000, 200000), ("direct calls beyond capacity 20", 5000, 50000), ("store-level searches", 5000, 50000), ("store-level rounds with 127-1500 records", 200, 2000), ("store-level rounds with clear and re-add", 500, 5000), ("type-ahead sequences with adds in between", 1000, 10000), ("direct call sequences with words of 76-420 letters", 200, 2000), ("direct call sequences with arithmetic length relations", 300, 3000), ("store-level queries of 65-200 words", 300, 3000), ("jaccard calls on sets of 256-70000 distinct elements", 20, 200), ("hook matrix accesses", 1000000, 10000000), ("hook matrix growths", 3, 3), ("hook matrix max size", 50, 50), ("hook counter accesses", 10000, 100000), ("hook cost accesses", 100000, 1000000), ("hook jaccard accesses", 10000, 100000)],
         }
     }
@@ -711,7 +795,7 @@ impl Prop for Prims {
                 for step in 0..(if cx.tier == Tier::Miri { 3 } else { 8 }) {
                     let k = cx.rng.range(1, alpha.len());
                     let long = (step + idx as usize) % 2 == 0;
-                    let top = if wide { 1200 } else { 60 };
+                    let top = if wide { if cx.rng.chance(1, 12) { 20_000 } else { 1200 } } else { 60 };
                     let k = if wide && cx.rng.chance(1, 3) { (*cx.rng.pick(&[63usize, 64, 65, 127, 128, 129, 255, 256, 257])).min(alpha.len()) } else { k };
                     let n1 = if long { cx.rng.range(20, top) } else { cx.rng.below(7) };
                     let n2 = if cx.rng.chance(1, 2) { cx.rng.range(20, top) } else { cx.rng.below(7) };
@@ -722,6 +806,7 @@ impl Prop for Prims {
             }
             (Which::Index, "stores") => self.index_case(cx, LANGS[(idx % NL) as usize]),
             (Which::Index, "long") => self.index_long_case(cx, LANGS[(idx % NL) as usize]),
+            (Which::Index, "session") => self.index_session_case(cx, LANGS[((idx / 4) % NL) as usize]),
             (Which::Index, "corpus") => {
                 let lang: &'static str = if idx % 2 == 0 { "en" } else { "none" };
                 with_corpus_store(lang, |st, recs| {
